@@ -51,6 +51,10 @@ type Case struct {
 	Vars     []Var  `json:"variations"`
 	Cluster  int    `json:"cluster_level"`
 	Flags    int    `json:"flags"` // 1 BOT, 2 EOT, 4 PRESERVE_DEFAULT_IGNORABLES, 8 REMOVE_DEFAULT_IGNORABLES
+	// Invisible: glyph replacing default ignorables (0: unset, the space glyph is used).
+	// NotFound: glyph for unmapped characters (0: default .notdef).
+	Invisible int `json:"invisible_glyph,omitempty"`
+	NotFound  int `json:"not_found_glyph,omitempty"`
 }
 
 func (c *Case) runes() []rune {
@@ -76,6 +80,9 @@ func (c *Case) wellFormed() error {
 	}
 	if c.Dir != 0 && (c.Dir < 4 || c.Dir > 7) {
 		return fmt.Errorf("invalid direction")
+	}
+	if c.Invisible < 0 || c.Invisible > 0xFFFF || c.NotFound < 0 || c.NotFound > 0xFFFF {
+		return fmt.Errorf("invalid invisible / not-found glyph")
 	}
 	if c.Script != "" && len(c.Script) != 4 {
 		return fmt.Errorf("invalid script")
@@ -103,18 +110,21 @@ type axis struct {
 }
 
 type fontEntry struct {
-	rel     string
-	index   int
-	face    *font.Face // shared, never mutated: cases create their own Face over face.Font
-	hb      *hbref.Face
-	traits  corpus.Traits
-	axes    []axis
-	feats   []string // feature tags of GSUB and GPOS (sorted, unique)
-	pool    []rune   // runes the port's cmap maps (sorted sample)
-	scripts []string // textgen alphabets the font is made for
-	space   bool     // font maps U+0020
-	hbOK    bool     // the reference loads the face with the same glyph count
-	note    string
+	rel      string
+	index    int
+	face     *font.Face // shared, never mutated: cases create their own Face over face.Font
+	hb       *hbref.Face
+	traits   corpus.Traits
+	axes     []axis
+	feats    []string // feature tags of GSUB and GPOS (sorted, unique)
+	pool     []rune   // runes the port's cmap maps (sorted sample)
+	scripts  []string // textgen alphabets the font is made for
+	space    bool     // font maps U+0020
+	hbOK     bool     // the reference loads the face with the same glyph count
+	note     string
+	rich     richness // layout richness (set by pickFonts; zero for replayed fonts)
+	upstream [][]rune // texts of the upstream expectation files for this font
+	nglyphs  int
 }
 
 var (
@@ -238,6 +248,12 @@ func loadFont(rel string, index int) (*fontEntry, error) {
 	}
 	sort.Strings(fe.scripts)
 	_, fe.space = fe.face.NominalGlyph(' ')
+	if index == 0 {
+		fe.upstream = upstreamFor(rel)
+	}
+	if fe.hb != nil {
+		fe.nglyphs = fe.hb.GlyphCount()
+	}
 	fontCache[key] = fe
 	return fe, nil
 }
@@ -364,6 +380,8 @@ func shapePort(fe *fontEntry, c *Case) (res portResult, perr error) {
 	buf.Props.Language = language.NewLanguage(langOf(c))
 	buf.Flags = harfbuzz.ShappingOptions(c.Flags & 0xF)
 	buf.ClusterLevel = harfbuzz.ClusterLevel(c.Cluster)
+	buf.Invisible = harfbuzz.GID(c.Invisible)
+	buf.NotFound = harfbuzz.GID(c.NotFound)
 	buf.GuessSegmentProperties()
 	res.Script, res.Dir = buf.Props.Script, buf.Props.Direction
 	buf.Shape(hf, portFeatures(c.Features))
@@ -389,6 +407,10 @@ func refInput(c *Case, extraFlags int) hbref.Input {
 		Flags: c.Flags&0xF | extraFlags, ClusterLevel: c.Cluster}
 	if c.Script != "" {
 		in.Script = tag32(c.Script)
+	}
+	in.Invisible = uint32(c.Invisible)
+	if c.NotFound != 0 {
+		in.NotFound, in.SetNotFound = uint32(c.NotFound), true
 	}
 	for _, f := range c.Features {
 		end := uint32(0xFFFFFFFF)
